@@ -8,6 +8,10 @@ _TRIMMED = [b"\x0b", b"\x0c", b"\r", b"\xc2\x85", b"\xc2\xa0", b"\xe1\x9a\x80", 
 def classify(case):
     import base64
     i = case.get("input") or {}
+    o = case.get("observed") or {}
+    if isinstance(o, dict) and o.get("current_in_mount_order") is False:
+        # order driver: the recorded current profile is no longer in mount order (kept entries were recorded reversed)
+        return "unmount-order-after-keep"
     if i.get("kind") == "profile":
         for e in i.get("entries") or []:
             name = base64.b64decode(e.get("name") or "")
@@ -23,13 +27,51 @@ SPEC = dict(
     disabled="under construction",
     coq_targets=["props/C28.vo"],
     drivers=[
-        dict(name="codec", run="TestVerifC28Codec", n=dict(quick=1200, thorough=30000),
+        dict(name="codec", run="TestVerifC28Codec", n=dict(quick=500, thorough=30000),
              ev=dict(requires=["V.lib.Bytes", "V.models.MountEntry"], case_type="MountEntry.case",
                      mismatch="MountEntry.mismatch", monitor="MountEntry.monitor_fail"), **_BUILD),
+        dict(name="changes", run="TestVerifC28Changes", n=dict(quick=150, thorough=6000),
+             ev=dict(requires=["V.lib.Bytes", "V.models.MountEntry", "V.models.MountNS"], case_type="MountNS.case",
+                     mismatch="MountNS.mismatch", monitor="MountNS.monitor_fail"), **_BUILD),
+        dict(name="order", run="TestVerifC28Order", n=dict(quick=150, thorough=4000),
+             ev=dict(requires=["V.lib.Bytes", "V.models.MountEntry", "V.models.MountNS"], case_type="MountNS.ocase",
+                     mismatch="(fun _ => false)", monitor="MountNS.order_fail"), **_BUILD),
     ],
     classify=classify,
-    rule="",
+    rule=("codec: Escape/Unescape on ALL strings of length <= 2 over the bytes ` \\t\\n\\\\0413a` plus the escape sequences and "
+          "near misses, then random strings; entries: a fixed edge list (one per guard: empty field, leading #, no/empty/"
+          "comma/hash options, white space and backslashes everywhere, int limits, leading \\r) each also as a one-entry "
+          "profile, plus random sane and hostile entries (fields over a vocabulary with blanks, tabs, newlines, "
+          "backslashes, literal \\040-like text, #, commas, \\r \\v \\f, U+0085/U+00A0/U+2003/U+3000, invalid UTF-8) "
+          "through String/ParseMountEntry; free text lines through ParseMountEntry; random profiles through "
+          "SaveMountProfileText/LoadMountProfileText; free profile text (comments, blank lines, odd white space, CRLF). "
+          "changes: fixed histories (parent+child mounted, kept, removed; nested mimics; overname; file/symlink kinds) and "
+          "random histories of 2-5 desired profiles (1-6 entries over nested paths a|b|c|d up to depth 4 under a scratch "
+          "root, sometimes written uncleanly; kinds dir/file/symlink/ensure-dir; bind/rbind/tmpfs/squashfs; origins "
+          "layout/overname/rootfs/other/none; x-snapd.id, ignore-missing, detach) over a random pre-existing tree of "
+          "directories, files and symlinks, each step run through the REAL executeMountProfileUpdate with in-memory "
+          "profiles and a simulated Change.Perform (missing targets get a writable mimic built by the real "
+          "createWritableMimic, so current profiles contain real synthetic entries with x-snapd.needed-by); one case per "
+          "step. A third of the cases call neededChanges directly on an arbitrary current profile (duplicates, synthetic "
+          "helpers needed by present/absent entries, rootfs entries, up to 18 entries). Desired mount points are pairwise "
+          "different after cleaning. order: the same histories (steps >= 1) reduced to (mount point, true mount age) and "
+          "the positions unmounted. Non-trivial = guarded entry/profile; step with a Keep or Unmount and a Mount; step "
+          "unmounting at least two entries."),
     exhaustive=dict(quick=False, thorough=False),
-    trusted_base=[],
-    assumptions=[],
+    trusted_base=[
+        "hand-written models coq/models/MountEntry.v (osutil mount entry codec and profile reader/writer) and coq/models/MountNS.v (neededChanges, sorting.go, the recording loop of update.go), tied by the differential run (harness/overlay/cmd/snap-update-ns/zz_verif_c28_test.go, in-package, CGO_ENABLED=0 with zz_verif_c28_stubs.go standing in for the cgo file bootstrap.go)",
+        "hand models validated only by the tie: filepath.Clean / filepath.Dir (component stack), strings.TrimSpace (byte-level table of the white-space runes), strings.FieldsFunc, strconv.Atoi, bufio.ScanLines (without the 64 KiB token limit), sort.Sort as insertion sort (exact for n <= 12; for longer current profiles with tied keys the comparison is skipped and the case tagged sort-ties-over-12), sort.Strings",
+        "the file system is an oracle: the lists of paths for which osutil.IsDirectory / FileExists / IsSymlink said yes at the time neededChanges ran (queried by the driver for every cleaned desired mount point and all its ancestors)",
+        "Change.Perform is simulated by the driver (no mounts are made): it decides only which synthetic entries enter the histories; createWritableMimic, planWritableMimic, execWritableMimic, neededChanges and executeMountProfileUpdate are the real code",
+        "decimal printing/parsing through coq/lib/Dec.v",
+    ],
+    assumptions=[
+        "PARTIAL: result profile proved in membership form (every desired entry mounted or kept; only desired entries mounted; only desired entries and still-needed helpers kept); that the change list applies step by step and that nothing appears twice is monitored on every observed change list, not proved",
+        "PARTIAL: mount order: proved are the trailing-slash key lemma and independent-before-mimic; sortedness of the two insertion sorts for byOriginAndMountPoint and the order between mimic groups are monitored, not proved",
+        "hypotheses of the planning theorems (checked on every tied case, cases violating them are not monitored): pairwise different cleaned desired mount points; pairwise different (dir, type) in the current profile; no desired entry on the (dir, type) of a different helper entry of the current profile; existing mount targets closed under containment among desired entries of the same origin",
+        "KNOWN FINDING unmount-order-after-keep: over histories the unmount order sentence fails on the real code (kept entries are recorded reversed); within one step C28_unmount_order holds for every profile",
+        "KNOWN FINDING profile-name-leading-space-rune: profile round trip needs the first byte of the line not to be a white-space rune that escape() leaves alone",
+        "codec guard: fields non-empty and not starting with #, at least one option, no commas inside options, joined options non-empty and not starting with #, numbers within int64; lines longer than bufio's 64 KiB token limit are outside the model",
+        "Go int is 64 bit (amd64)",
+    ],
 )
